@@ -1655,7 +1655,7 @@ class TransportLayer(TransportLayerLogic):
                     if delay > 0:
                         self.params.wait_func(delay)   # If we are transmitting CFs, no need to call rxfn, we can stream those CF with short sleep
                     if not self.events.stop_requested.is_set():
-                        super().process(do_rx=False, do_tx=True)
+                        super().process(0.0, do_rx=True, do_tx=True)   # keep reading what is already queued (without waiting): the peer may start a transfer of its own meanwhile
                 else:
                     rx_timeout = 0.0 if self.is_tx_throttled() else self.default_read_timeout
                     super().process(rx_timeout)
